@@ -254,6 +254,10 @@ func checkReferenceFiller(r *core.Run, p *core.Program, a *analysis, rule string
 					}
 					for i, lhs := range as.Lhs {
 						if lid, ok := lhs.(*ast.Ident); ok && info.ObjectOf(lid) == v && i < len(as.Rhs) {
+							// a copy of the container value itself (`c := **_this.ppContainer`): the slice header as it is now
+							if st, isStar := stripParens(as.Rhs[i]).(*ast.StarExpr); isStar && typeIs(info.TypeOf(st), "reflect", "Value") {
+								bad = v.Name()
+							}
 							ast.Inspect(as.Rhs[i], func(k ast.Node) bool {
 								if c, ok := k.(*ast.CallExpr); ok {
 									if cc := callee(info, c); cc != nil && cc.Name() == "Index" && typeIs(recvType(cc), "reflect", "Value") {
@@ -269,7 +273,7 @@ func checkReferenceFiller(r *core.Run, p *core.Program, a *analysis, rule string
 				return true
 			})
 			r.Check(rule, f.Name()+"|setter-resolves-element-late", call.Pos(), bad == "",
-				"the setter queued for a forward reference captures the element "+bad+" obtained with Index() before the container can grow; after a reallocating append the setter writes into the old backing array and the reference is never filled in")
+				"the setter queued for a forward reference captures "+bad+", an element obtained with Index() or a copy of the container value taken before the container can grow; after a reallocating append the setter writes into the old backing array and the reference is never filled in")
 		})
 	}
 	r.Floor(rule, "setter closures handed to NotifyLocalReference", nClos, 5)
